@@ -18,6 +18,8 @@ def tasks(tier, seed):
         t.append(("contracts.douglas", "task", ("active", a, seed), to, f"active{list(a)}"))
     from contracts import external_deps
     t += external_deps.softmax_tasks(tier, seed)
+    # B: the same contracts replayed on the real code at a ladder of larger shapes (stand-in for the missing induction over sizes)
+    t.append(("contracts.size_ladder", "task", ("douglas_bins", tier, seed), 1500, "size ladder: soft bins / active points"))
     return t
 
 
